@@ -811,7 +811,9 @@ class CellsImpl(*_cells_impl_base):
             self.input_keys.add(key)
             if self.system._recalc_dependents:
                 for trg in targets:
-                    trg[OBJ].get_value_from_key(trg[KEY])
+                    if trg[OBJ].interface._impl is trg[OBJ]:
+                        # Not in an ItemSpace deleted by the assignment
+                        trg[OBJ].get_value_from_key(trg[KEY])
 
     def _store_value(self, key, value):
 
